@@ -174,6 +174,14 @@ def gen_cases(tier, seed, shapes=None, per_shape=None):
         per_shape = 24 if tier == "quick" else 500
     cases = []
     cid = 0
+    # slowed elements, so that every worker certainly folds several values and the caller certainly
+    # combines several partial results (the C08 known finding is then observed on every run)
+    if shapes is None:
+        for (nt, n) in [(2, 24), (3, 40), (4, 40)]:
+            for term in ["red:add", "fold:0:add", "maxby"]:
+                cases.append("id=%d shape=vec_M known=1 in=%s ops=N:%d;C:1;M:1:0;C:1;N:%d term=%s avail=%d sched=- fuel=100000 delay=300" % (
+                    cid, ",".join(map(str, range(n))), nt, nt, term, AVAIL))
+                cid += 1
     for (src, ch) in gen_harness.all_shapes():
         if src in ("endless", "bigrange"):
             continue
